@@ -99,7 +99,7 @@ func canon(order []string, vals []interface{}) string {
 
 var encOrder = []string{"none", "tls"}
 var compOrder = []string{"none", "gzip"}
-var schOrder = []string{"guest", "plain", "transport"}
+var schOrder = []string{"guest", "plain", "transport", "key", "external"}
 
 // Names gives the concrete identity names standing for the classes a / b.
 type Names struct{ A, B string }
@@ -173,6 +173,9 @@ func credClassOf(a lime.Authentication) (scheme, cred string) {
 	case *lime.TransportAuthentication:
 		return "transport", "e"
 	case *lime.ExternalAuthentication:
+		if strings.HasPrefix(v.Token, "tok-") && strings.HasPrefix(v.Issuer, "iss-") && v.Token[4:] == v.Issuer[4:] {
+			return "external", v.Token[4:]
+		}
 		return "external", "?"
 	}
 	return "?", "?"
@@ -220,6 +223,8 @@ func Concretise(e tr.Event, sid string, nm Names) []byte {
 		default:
 			if e.Scheme == "key" {
 				m["authentication"] = map[string]interface{}{"key": credB64(e.Cred)}
+			} else if e.Scheme == "external" {
+				m["authentication"] = map[string]interface{}{"token": "tok-" + e.Cred, "issuer": "iss-" + e.Cred}
 			} else {
 				m["authentication"] = map[string]interface{}{"password": credB64(e.Cred)}
 			}
